@@ -1,4 +1,49 @@
 ---------------------------- MODULE PageStoreInd ----------------------------
+(* Typed abstraction of spec/PageStore.tla for INDUCTIVE-invariant checks with Apalache   *)
+(* (harness/apalache.py, thorough tier of C10).  TLC checks PageStore.tla itself on small *)
+(* constants and binds it to the code; this module is about the DESIGN only: it shows     *)
+(* that memo coherence is an inductive invariant of the store's operations, i.e. holds    *)
+(* after ANY number of add_page / get_page / commit / reopen steps, and that it stops     *)
+(* being inductive when the deviation MemoNotInvalidatedOnAdd is switched on.             *)
+(*                                                                                        *)
+(* What is abstracted, and why that is sound for MemoCoherent                             *)
+(*  * Titles.  PageStore.tla has titles as sequences of atoms and two normalisations      *)
+(*    (NormAdd on the write side, Candidates on the read side).  Here a stored title is   *)
+(*    a value of the uninterpreted sort TITLE (unbounded, only equality).                 *)
+(*      - AddPage(t, ns, red, body) abstracts PageStore!AddPage(title, ns, redirect, body,*)
+(*        model) with t = NormAdd(title, ns): NormAdd is a function into stored titles, so*)
+(*        letting t range over ALL of Titles over-approximates its image.  body stands    *)
+(*        for the pair (body, model): both are payload that no guard reads.               *)
+(*      - A lookup argument (title, ns, nr) is represented by what DbGet reads of it: the *)
+(*        candidate list Candidates(title, ns) (PageStore.tla: 0, 1 or 2 stored titles    *)
+(*        tried in order - here n, c1, c2), ns and nr.  DbGet(S, title, ns, nr) =         *)
+(*        FirstHit(S, Candidates(title, ns), 1, ns, nr) depends on the spelling only      *)
+(*        through that list, so two spellings with the same list are the same abstract    *)
+(*        argument.  The abstraction map on states sends a memo entry [args, res] to      *)
+(*        [alpha(args), res].  A concrete Lookup that misses while the abstract one hits  *)
+(*        (another spelling of the same class was memoised) adds [alpha(args),            *)
+(*        DbGet(cur, args)], which under MemoCoherent IS the entry already there: the     *)
+(*        abstract step stutters.  Every other concrete step maps to the abstract step of *)
+(*        the same name, so alpha(reachable concrete states) is included in the abstract  *)
+(*        reachable states and MemoCoherent here implies PageStore!MemoCoherent there.    *)
+(*      - Lookup abstracts PageStore!Lookup; PageStore!LookupResolve is two memoised      *)
+(*        lookups (the second with the redirect target's candidates and nr = TRUE) and is *)
+(*        abstracted by two Lookup steps with unrelated arguments (over-approximation:    *)
+(*        the dependence of the second argument on the first result is dropped).          *)
+(*  * FirstHit's `CHOOSE r \in q` (SQL: LIMIT 1) is a fixed but arbitrary choice among    *)
+(*    the rows of one title in several namespaces (only for ns = NoNs).  TLC's CHOOSE is  *)
+(*    the least element in a fixed total order; here Pick takes the least namespace id    *)
+(*    (unique because KeysUnique is part of the invariant).  The proof uses only that the *)
+(*    choice is a function of the row set.                                                *)
+(*  * Commit abstracts PageStore!Commit.  Reopen (not an action of PageStore.tla; the     *)
+(*    harness probes a second context on the same file, Trace_PageStore "reopen_get")     *)
+(*    closes the context without committing and opens a new one: it sees the committed    *)
+(*    rows and has an empty memo.                                                         *)
+(*                                                                                        *)
+(* Sizes.  TITLE, BODY and the namespace ids (Int) are unbounded; what is bounded is the  *)
+(* NUMBER of rows / memo entries of the arbitrary pre-state of the inductive step         *)
+(* (Gen(N) in IndInit) and the number of distinct parameters an action may choose from    *)
+(* (Gen(k) in ConstInit; one step uses at most 2 titles, 1 namespace, 1 body).            *)
 EXTENDS Integers, FiniteSets, Apalache
 
 CONSTANTS
@@ -9,7 +54,7 @@ CONSTANTS
   \* @type: Set(BODY);
   Bodies,
   \* @type: Bool;
-  DevMemo
+  DevMemo     \* "MemoNotInvalidatedOnAdd" \in Dev of PageStore.tla
 
 (*
   @typeAlias: row = {title: TITLE, ns: Int, red: TITLE, body: BODY};
@@ -21,14 +66,14 @@ PageStoreInd_aliases == TRUE
 
 VARIABLES
   \* @type: Set($row);
-  cur,
+  cur,    \* rows visible to the writer connection (committed + pending)
   \* @type: Set($row);
-  com,
+  com,    \* rows committed to the file
   \* @type: Set($ment);
-  memo
+  memo    \* the lru_cache of get_page
 
-NoNs == 9999
-NoRed == "none_OF_TITLE"
+NoNs == 9999                  \* namespace_id = None
+NoRed == "none_OF_TITLE"      \* redirect_to IS NULL
 NoBody == "none_OF_BODY"
 
 \* @type: ($row) => $res;
@@ -48,6 +93,7 @@ Query(S, t, ns, nr) ==
 \* @type: (Set($row)) => $row;
 Pick(q) == CHOOSE r \in q : \A r2 \in q : r.ns <= r2.ns
 
+\* what get_page returns when it goes to the database (PageStore!DbGet / FirstHit)
 \* @type: (Set($row), $args) => $res;
 DbGet(S, a) ==
   LET q1 == Query(S, a.c1, a.ns, a.nr)
@@ -61,11 +107,16 @@ Init == cur = {} /\ com = {} /\ memo = {}
 \* @type: ($args) => Bool;
 MemoHit(a) == \E m \in memo : m.args = a
 
+\* PageStore!GetPage(a).res: what the caller of get_page observes
+\* @type: ($args) => Set($res);
+Observed(a) == IF MemoHit(a) THEN {m.res : m \in {m2 \in memo : m2.args = a}} ELSE {DbGet(cur, a)}
+
 \* @type: ($args) => Bool;
 Lookup(a) ==
   /\ memo' = IF MemoHit(a) THEN memo ELSE memo \union {[args |-> a, res |-> DbGet(cur, a)]}
   /\ UNCHANGED <<cur, com>>
 
+\* @type: (TITLE, Int, TITLE, BODY) => Bool;
 AddPage(t, ns, red, body) ==
   /\ cur' = Upsert(cur, [title |-> t, ns |-> ns, red |-> red, body |-> body])
   /\ memo' = IF DevMemo THEN memo ELSE {}
@@ -82,13 +133,26 @@ Next ==
   \/ Commit
   \/ Reopen
 
+(* ------------------------------ invariants ------------------------------ *)
 \* @type: (Set($row)) => Bool;
 KeysUnique(S) == \A r1, r2 \in S : (r1.title = r2.title /\ r1.ns = r2.ns) => r1 = r2
 MemoFunctional == \A m1, m2 \in memo : m1.args = m2.args => m1 = m2
+\* PageStore!MemoCoherent: whatever is memoised is what the database would answer now
 MemoCoherent == \A m \in memo : m.res = DbGet(cur, m.args)
 
 IndInv == KeysUnique(cur) /\ KeysUnique(com) /\ MemoFunctional /\ MemoCoherent
 
+\* consequence: every lookup observed through the API is what the store answers now
+ObservedCurrent == \A a \in ArgSet : Observed(a) = {DbGet(cur, a)}
+
+\* PageStore!CommitOnlyPublishes as an action invariant: the committed rows change only by
+\* becoming exactly the writer's rows (committed + pending), and Commit publishes exactly those
+CommitOnlyPublishes == com' # com => (com' = cur /\ cur' = cur)
+
+(* vacuity guards: these must FAIL (IndInit has states with a populated, hitting memo) *)
+NoInterestingState == ~(\E m \in memo : m.res.found /\ m.args.n = 2 /\ \E r \in cur : r.red # NoRed)
+
+(* ------------------------------ instances ------------------------------ *)
 ConstInit ==
   /\ Titles = Gen(3)
   /\ Nss = Gen(2)
@@ -105,5 +169,12 @@ IndInit ==
   /\ cur = Gen(4)
   /\ com = Gen(4)
   /\ memo = Gen(4)
+  /\ IndInv
+
+\* a larger arbitrary pre-state (slower)
+IndInit6 ==
+  /\ cur = Gen(6)
+  /\ com = Gen(6)
+  /\ memo = Gen(6)
   /\ IndInv
 =============================================================================
